@@ -33,4 +33,17 @@ var extraRules = map[string]func(p *Program, c *Check){
 		ruleOWN2(p, c, funcs)
 	},
 	"C01": func(p *Program, c *Check) { ruleOWN2(p, c, p.requestPath(false)) },
+	"C07": func(p *Program, c *Check) {
+		ruleTCH(p, c)
+		ruleLIT(p, c)
+		ruleLEN(p, c, p.requestPath(false))
+	},
+	"C15": func(p *Program, c *Check) { ruleLEN(p, c, p.requestPath(false)) },
+	"C18": func(p *Program, c *Check) { ruleTCH(p, c) },
+	"C11": func(p *Program, c *Check) { ruleLIT(p, c) },
+	"C20": func(p *Program, c *Check) {
+		rulePanicType(p, c, p.requestPath(false))
+		ruleREC(p, c, p.requestPath(false))
+	},
+	"C05": func(p *Program, c *Check) { ruleREC(p, c, p.requestPath(false)) },
 }
